@@ -88,6 +88,14 @@ class Rng:
                         used = True
                     if (getattr(c.func, "attr", None) == "check_random_state" or getattr(c.func, "id", None) == "check_random_state") and c.args and is_name(c.args[0], p_):
                         used = True
+                    if not used and _depth < 4 and any(is_name(a_, p_) for a_ in list(c.args) + [k.value for k in c.keywords]):
+                        # handed on to a callee (a nested / private helper) as *its* seed
+                        for g_ in self._callees_static(f, c):
+                            gi_ = self.seed_info(g_, _depth + 1)
+                            if gi_ is not None and gi_[0] == "param":
+                                b_ = bind_call(c, g_, False)
+                                if is_name(b_.params.get(gi_[1]), p_):
+                                    used = True
                 if used and p_ not in (f.local_names() - set(f.all_params)):
                     info = ("param", p_)
                     break
